@@ -277,6 +277,7 @@ class Sim:
         self.atomic_tid = None    # thread whose scheduling points are suspended
         self.atomic_breaks = 0
         self.park_requests = {}
+        self.in_pred = False
         self.wake_preds = {}
         self.parks = 0
 
@@ -392,18 +393,36 @@ class Sim:
                     out.append(t)
                 else:
                     pred = self.wake_preds.get(t.tid)
-                    if pred is not None and pred():
+                    if pred is not None and self._eval(pred):
                         del self.wake_preds[t.tid]
                         t.state = RUNNABLE
                         out.append(t)
         return out
 
-    def park_at_next_point(self, pred, max_steps):
-        """The calling thread will be held at its *next* scheduling point until
-        pred() becomes true, max_steps more steps have passed, or nothing else
-        can run - a state-triggered long pre-emption (for check-then-act
-        windows inside library calls)."""
-        self.park_requests[self.current.tid] = (pred, max_steps)
+    def park_at_next_point(self, pred, max_steps, skip=0):
+        """The calling thread will be held at its *next* scheduling point (or,
+        with skip=k, at the k-th after that) until pred() becomes true,
+        max_steps more steps have passed, or nothing else can run - a
+        state-triggered long pre-emption (for check-then-act windows inside
+        library calls)."""
+        self.park_requests[self.current.tid] = [pred, max_steps, skip]
+
+    def _eval(self, pred):
+        """Predicates read library state (properties of /repo code): with
+        statement-level pre-emption on, those reads must not be scheduling
+        points of the kernel itself."""
+        self.in_pred = True
+        try:
+            return pred()
+        finally:
+            self.in_pred = False
+
+    def _park_due(self, tid):
+        r = self.park_requests[tid]
+        if r[2] > 0:
+            r[2] -= 1
+            return False
+        return True
 
     def _choose(self, runnable, cur):
         n = len(runnable)
@@ -443,7 +462,7 @@ class Sim:
 
     def point(self, tag='p'):
         """A scheduling point: any runnable thread may continue from here."""
-        if self.aborting:
+        if self.aborting or self.in_pred:
             return
         cur = self.current
         if cur is None or _CURRENT is not self:
@@ -467,9 +486,10 @@ class Sim:
             self._try_interrupt()
         for h in self.step_hooks:
             h(self)
-        if self.park_requests and cur.tid in self.park_requests:
-            pred, n = self.park_requests.pop(cur.tid)
-            if not pred():
+        if self.park_requests and cur.tid in self.park_requests and \
+                self._park_due(cur.tid):
+            pred, n, _ = self.park_requests.pop(cur.tid)
+            if not self._eval(pred):
                 self.parks += 1
                 cur.state = WAITSTEP
                 cur.wake_step = self.steps + n
